@@ -125,6 +125,19 @@ def property_theorems(prop: str) -> dict:
     return info
 
 
+def coqchk(prop: str) -> dict:
+    """independent re-check of Properties/<prop>.vo and everything it depends on; returns the context summary"""
+    r = subprocess.run(["timeout", "1500", "coqchk", "-silent", "-o", "-R", ".", "SV", f"SV.Properties.{prop}"], cwd=COQ, capture_output=True, text=True)
+    out = r.stdout + r.stderr
+    summary = out[out.find("CONTEXT SUMMARY"):] if "CONTEXT SUMMARY" in out else out[-1500:]
+    items = {}
+    for m in re.finditer(r"\* ([^:\n]+):\s*([^\n]*(?:\n    [^\n]*)*)", summary):
+        items[m.group(1).strip()] = " ".join(m.group(2).split())
+    ok = r.returncode == 0 and items.get("Axioms") == "<none>" and all(
+        v == "<none>" for k, v in items.items() if k.startswith("Constants/Inductives") or k.startswith("Inductives whose"))
+    return {"ok": ok, "returncode": r.returncode, "summary": items}
+
+
 if __name__ == "__main__":
     st = build(verbose=False)
     print("translator:", st["translator"] or "ok")
